@@ -447,12 +447,23 @@ def judge_rekey(scn, obs):
     o = TraceOracle()
     problems = []
     per_side = {}
+    mine = {}
     for side, raws, cid in (("A", obs["raw_i"], obs["chan_p"]), ("B", obs["raw_p"], obs["chan_i"])):
         # a side's messages carry the *recipient's* channel number
-        mine = [raw for (t, raw) in raws
-                if t in DATA_TYPES + (MSG_CHANNEL_EOF, MSG_CHANNEL_CLOSE) and Message(raw[1:]).get_int() == cid]
-        per_side[side] = tuple(r[0] for r in mine)
-        problems += o.feed(side, mine, "handler" if side == "A" and not scn[2] else str(scn[2] or scn[1]))
+        mine[side] = [raw for (t, raw) in raws
+                      if t in DATA_TYPES + (MSG_CHANNEL_EOF, MSG_CHANNEL_CLOSE) and Message(raw[1:]).get_int() == cid]
+        per_side[side] = tuple(r[0] for r in mine[side])
+    # B (the peer) first: its messages were in flight before the exchange started
+    problems += o.feed("B", mine["B"], str(scn[1]))
+    # A message by message: when A has no close operation of its own, its CLOSE is the answer to B's CLOSE, i.e.
+    # from then on both CLOSEs are exchanged and A must stay silent on the channel
+    answer_only = "close" in scn[1] and scn[2] != "close"
+    op = "handler" if not scn[2] else str(scn[2])
+    for raw in mine["A"]:
+        problems += o.feed("A", [raw], op)
+        if raw[0] == MSG_CHANNEL_CLOSE and answer_only:
+            o.delivered_close("A")
+            o.delivered_close("B")
     if o.close["B"] and not o.close["A"] and all(obs["active"]):
         problems.append(("peer-close-not-answered", {"side": "A"}))
     if o.close["A"] and o.close["B"] and all(obs["active"]) and not all(obs["released"]):
@@ -484,7 +495,13 @@ def rekey_item(item, acc):
             traces.add(trace)
             acc.nt(("rekey", scn, trace))
         for clause, d in problems:
-            acc.violation(make_key(clause, d, "crossing-a-re-exchange"),
+            key = make_key(clause, d, "crossing-a-re-exchange")
+            if clause == "message-sent-on-released-channel" and d.get("type") == MSG_CHANNEL_EOF \
+                    and d.get("op") in ("shutdown_write", "shutdown2"):
+                # the user's shutdown marked the write side shut before the peer's CLOSE was answered, its EOF
+                # message leaves after the answer: the recorded lock-free-send race, EOF flavour
+                key = "eof-after-close-exchange:shutdown*:writer-racing-close-or-shutdown"
+            acc.violation(key,
                           {"scn": scn, "why": d, "wire_A": list(per_side["A"]), "wire_B": list(per_side["B"]),
                            "order": list(obs["order"]), "choices": ex.choices},
                           {"part": "rekey", "scn": scn, "choices": ex.choices})
